@@ -291,10 +291,13 @@ def gen_driver(inv, T, tier):
                 m = {"NumericType": T, tn: o}
                 args = ", ".join("mk<%s>()" % _subst(p, m) for p in f["params"])
                 k += 1
+                # a class template in a nested namespace (PhQ::Internal helpers) names its siblings without qualification
+                nss = nm.split("::")[:-1] if not c.get("member_of_class") else []
+                pre, post = " ".join("namespace %s {" % n for n in nss), "}" * len(nss)
                 if f["kind"] == "ctor":
-                    w("void drv_m%d() { %s<%s> a(%s); (void)a; }" % (k, nm, T, args))
+                    w("%s void drv_m%d() { %s<%s> a(%s); (void)a; } %s" % (pre, k, "::PhQ::" + nm, T, args, post))
                 else:
-                    w("void drv_m%d() { (void)mk<%s<%s>&>().%s(%s); }" % (k, nm, T, f["sname"], args))
+                    w("%s void drv_m%d() { (void)mk<%s<%s>&>().%s(%s); } %s" % (pre, k, "::PhQ::" + nm, T, f["sname"], args, post))
         elif len(tps) == 1 and tps[0]["kind"] == "nontype":
             ety = tps[0]["type"]
             en = "PhQ::" + ety if not ety.startswith("PhQ::") else ety
@@ -369,7 +372,14 @@ def gen_driver(inv, T, tier):
         for m in combos:
             k += 1
             args = ", ".join("mk<%s>()" % _subst(p, m) for p in f["params"])
-            w("void drv_f%d() { (void)%s(%s); }" % (k, qn, args))
+            ctx = f.get("context", "")
+            if ctx.startswith("PhQ::") and "(" not in ctx and "<" not in ctx:
+                # written parameter types are looked up in the function's own namespace (PhQ::Internal helpers name their
+                # sibling types without qualification)
+                inner = ctx[len("PhQ::"):].split("::")
+                w("%s void drv_f%d() { (void)%s(%s); } %s" % (" ".join("namespace %s {" % n for n in inner), k, qn, args, "}" * len(inner)))
+            else:
+                w("void drv_f%d() { (void)%s(%s); }" % (k, qn, args))
     # unit conversion entry points, explicit template arguments, every unit type
     shapes = [("%s", 1), ("std::array<%s, 5>", 0), ("std::vector<%s>", 0), ("PlanarVector<%s>", 0), ("Vector<%s>", 0),
               ("SymmetricDyad<%s>", 0), ("Dyad<%s>", 0)]
